@@ -33,10 +33,11 @@ import (
 )
 
 type areaRun struct {
-	r   *hx.Result
-	drv *model.Driver
-	env *verifapi.AreaEnv
-	rng *rand.Rand
+	r        *hx.Result
+	drv      *model.Driver
+	env      *verifapi.AreaEnv
+	rng      *rand.Rand
+	progress int64 // cases finished (watchdog)
 }
 
 type areaCase struct {
@@ -806,6 +807,7 @@ func (a *areaRun) small() {
 			impl = "panic"
 		}
 		mod := a.drv.Ask("qk", model.H(k))
+		atomic.AddInt64(&a.progress, 1)
 		r.Count("qk|"+k, len(k) > 1)
 		r.Dist("area:quadkey")
 		if impl != mod {
@@ -854,6 +856,7 @@ func (a *areaRun) small() {
 	}
 	for _, s := range ints {
 		want := "err"
+		atomic.AddInt64(&a.progress, 1)
 		v1, e1 := strconv.Atoi(s)
 		v2, e2 := strconv.ParseInt(s, 10, 64)
 		if (e1 == nil) != (e2 == nil) || (e1 == nil && int64(v1) != v2) {
@@ -908,6 +911,12 @@ func areas(r *hx.Result, cfg hx.Config) {
 		return
 	}
 	defer drv.Close()
+	r.Rule += " areas: one case = one (command, FENCE/CLIP/output flags, area token list) run through cmdSearchArgs, parseArea and cmdTEST and through the extracted Model/AreaParse functions, token lists generated per area word (valid, damaged arity/values, CLIPBY chains, trailing tokens, expression words, CLIP prefix, mixed-case and non-ASCII keywords) after a fixed corpus; non-trivial = at least one of the two parsers accepted the tokens. Plus quadkey strings, integer tokens and float bit patterns against internal/bing, strconv and Go's comparisons."
+	r.Assumptions = append(r.Assumptions,
+		"area parsers: strings.ToLower, strconv.ParseFloat, geojson.Parse (OBJECT and the sector polygon) and the keyspace lookup of GET are oracles of Model/AreaParse, computed by direct library calls for every request; strconv.Atoi / ParseInt / ParseUint are modelled by their value semantics (sampled against strconv)",
+		"area parsers: the object a model constructor term stands for is built by direct library calls (verifapi.AreaBuild*: geojson.NewPoint/NewCircle/NewRect, geohash.BoundingBox, bing.TileXYToBounds, sectr.NewSector + geojson.Parse, clip.Clip); the float arithmetic of TileXYToBounds and of the MVT margin is not modelled",
+		"area parsers: parseSearchScanBaseTokens and BUFFER are outside Model/AreaParse (FENCE, CLIP and 'BOUNDS read as output format' enter as flags); AND/OR/NOT/parenthesis expressions of TEST answer TOutside and are only cross-checked parser against parser",
+	)
 	a := &areaRun{r: r, drv: drv, env: verifapi.NewAreaEnv(), rng: rand.New(rand.NewSource(cfg.Seed*7919 + 20201))}
 	for _, kv := range [][3]string{
 		{"fleet", "a", `{"type":"Point","coordinates":[-112.2,33.4]}`},
@@ -958,7 +967,6 @@ func areas(r *hx.Result, cfg hx.Config) {
 	}
 	// a parser that does not return (e.g. a sector whose bearings were not checked for Inf) must end
 	// the run with its input, not hang it: the cases run in a goroutine watched from here
-	var progress int64
 	var current atomic.Value
 	done := make(chan struct{})
 	go func() {
@@ -966,7 +974,7 @@ func areas(r *hx.Result, cfg hx.Config) {
 		step := func(c areaCase, strict bool) {
 			current.Store(c)
 			run(c, strict)
-			atomic.AddInt64(&progress, 1)
+			atomic.AddInt64(&a.progress, 1)
 		}
 		for _, c := range areaCorpus {
 			step(c, len(c.Toks) < 7 && !hasWord(c.Toks, "clipby", "(", ")", "and", "or", "not", "clip"))
@@ -984,7 +992,7 @@ func areas(r *hx.Result, cfg hx.Config) {
 			r.TracesImpl += n + len(areaCorpus)
 			return
 		case <-time.After(500 * time.Millisecond):
-			if p := atomic.LoadInt64(&progress); p != last {
+			if p := atomic.LoadInt64(&a.progress); p != last {
 				last, lastT = p, time.Now()
 			} else if time.Since(lastT) > 20*time.Second {
 				c, _ := current.Load().(areaCase)
